@@ -22,6 +22,7 @@ type specFinding struct {
 
 type loadSpecState struct {
 	wfChecked, closedChecked int
+	genValid, genFault       int
 	agreeAccept, agreeReject int
 	findings                 map[string]*specFinding
 }
@@ -73,9 +74,31 @@ func failingClauses(v string) (fails []string, ok bool) {
 	return fails, true
 }
 
+// Stable signatures of the two loader defects that are recorded, not repaired:
+//   - a builtin directive may be redeclared any number of times and the last declaration wins (R7b):
+//     whenever S.uniqueDirectiveNames is among the failing clauses of an accepted document, the other
+//     failing clauses are consequences of the overwritten definition and are not reported separately;
+//   - the kind of a root operation type is not checked (`input Query {…}` receives __schema/__type):
+//     whenever rootTypesAreObjects fails on a loaded schema, the other failing clauses are consequences.
+const (
+	SigRedeclaredBuiltin = "go-accepts-spec-rejects:S.uniqueDirectiveNames"
+	SigNonObjectRoot     = "loaded-schema-violates:non-object-root-type"
+)
+
+func containsStr(xs []string, x string) bool {
+	for _, y := range xs {
+		if x == y {
+			return true
+		}
+	}
+	return false
+}
+
 // specLoad judges the REAL loader directly against the Lean spec: `wf` on the merged document vs
-// Go's accept/reject, and `closed` (Closed, RelationsExact, HasBuiltins, IntrospectionFields) on every
-// schema Go loaded.
+// Go's accept/reject, and `closed` (Closed, RelationsExact, HasBuiltins, IntrospectionFields,
+// rootTypesAreObjects) on every schema Go loaded.  Cases with an expectation (generated schemas) are
+// also judged against it: 'v' valid by construction — must load and be well formed; 'f' single
+// injected fault — must be rejected by the loader and by the spec.
 func (c *Ctx) specLoad(cases []LoadCase) {
 	st := c.lss()
 	var reqs []string
@@ -83,6 +106,9 @@ func (c *Ctx) specLoad(cases []LoadCase) {
 	var idx []int
 	for i, cs := range cases {
 		if cs.Doc == "" || !(strings.HasPrefix(cs.GoObs, "(") || strings.HasPrefix(cs.GoObs, "E,")) {
+			if cs.Expect != 0 {
+				st.add("generated-schema-does-not-parse:"+cs.Label, cs.Sources, describeObs(cs.GoObs))
+			}
 			continue
 		}
 		reqs = append(reqs, "wf "+cs.Doc)
@@ -104,22 +130,47 @@ func (c *Ctx) specLoad(cases []LoadCase) {
 		}
 		if kind[k] == 'c' {
 			st.closedChecked++
-			if len(fails) > 0 {
+			switch {
+			case containsStr(fails, "rootTypesAreObjects"):
+				st.add(SigNonObjectRoot, cs.Sources, r)
+			case len(fails) > 0:
 				st.add("loaded-schema-violates:"+strings.Join(fails, "+"), cs.Sources, r)
 			}
 			continue
 		}
 		st.wfChecked++
 		goAccepts := strings.HasPrefix(cs.GoObs, "(")
+		r7b := false
 		switch {
 		case goAccepts && len(fails) == 0:
 			st.agreeAccept++
 		case !goAccepts && len(fails) > 0:
 			st.agreeReject++
+		case goAccepts && containsStr(fails, "S.uniqueDirectiveNames"):
+			r7b = true
+			st.add(SigRedeclaredBuiltin, cs.Sources, r)
 		case goAccepts:
 			st.add("go-accepts-spec-rejects:"+strings.Join(fails, "+"), cs.Sources, r)
 		default:
 			st.add("go-rejects-spec-accepts:"+LoadTemplateOf(errMessage(cs.GoObs)), cs.Sources, describeObs(cs.GoObs))
+		}
+		switch cs.Expect {
+		case 'v':
+			st.genValid++
+			if !goAccepts {
+				st.add("generated-valid-schema-rejected:"+LoadTemplateOf(errMessage(cs.GoObs)), cs.Sources, describeObs(cs.GoObs))
+			}
+			if len(fails) > 0 {
+				st.add("generated-valid-schema-not-wellformed:"+strings.Join(fails, "+"), cs.Sources, r)
+			}
+		case 'f':
+			st.genFault++
+			if goAccepts && !r7b {
+				st.add("injected-fault-accepted:"+cs.Label, cs.Sources, r)
+			}
+			if len(fails) == 0 {
+				st.add("injected-fault-wellformed:"+cs.Label, cs.Sources, r)
+			}
 		}
 	}
 }
@@ -128,6 +179,7 @@ func (c *Ctx) specLoadSummary() {
 	st := c.lss()
 	fmt.Printf("spec: wf compared on %d documents (agree accept %d, agree reject %d); closed/relations/builtins judged on %d loaded schemas\n",
 		st.wfChecked, st.agreeAccept, st.agreeReject, st.closedChecked)
+	fmt.Printf("spec: expectations judged on %d valid-by-construction and %d single-fault schemas\n", st.genValid, st.genFault)
 	sigs := make([]string, 0, len(st.findings))
 	for s := range st.findings {
 		sigs = append(sigs, s)
